@@ -9,6 +9,8 @@ import RV.Base.Proto
         l = Literal(v); valid = lexical form in the XSD lexical space (Lean recogniser); back = value of re-reading it
     eq <lit> <lit>                       → eq|term-equal (spelling mode only, else -)|eq-result     lit = L <dt|-> <cps> <0|1> | P <pyspec>
     spell 0|1                            → ok      (also print the exact lexical forms; development diagnostic)
+    relit <dt|-> <lit>                   → relit|ill|val|valid|back|idem|val(normalize())|eq(ref)|eq(old)[|spell…]
+        new = Literal(old) / Literal(old, datatype=dt); ref = Literal(str(new), datatype=new.datatype, normalize=False)
     skip                                 → unmodelled   (the harness declares the case outside the model)
   pyspec: int i | bool 0|1 | dec 0|1 coeff exp | str cps | date y m d | time h mi s us tz|- |
           datetime y m d h mi s us tz|- | td us | dur years months us
@@ -185,6 +187,28 @@ def eqLine (st : St) (a b : LitR) : String :=
   | _, .unmodelled => "unmodelled"
   | _, _ => "eq|raise"
 
+/-- `Literal(old)` / `Literal(old, datatype=dt)` -/
+def relitLine (st : St) (old : LitR) (dt : Option Dt) : String :=
+  match old with
+  | .unmodelled => "unmodelled"
+  | .raises => "relit|raise"
+  | .lit o =>
+    if dt.isSome && !inFragment dt o.lex then "unmodelled"
+    else
+      let new := mkFromLit o dt
+      let back := (mkLex new.dt new.lex false).map (·.value)
+      let backS := match back with | some v => canon v | none => "raise"
+      let eqS := fun (r : Option Bool) => match r with | some true => "1" | some false => "0" | none => "TypeError"
+      let refEq := match mkLex new.dt new.lex false with | some r => eqS (new.eq r) | none => "raise"
+      match new.normalize with
+      | some n1 =>
+        match n1.normalize with
+        | some n2 =>
+          let base := s!"relit|{showIll new.ill}|{canon new.value}|{b01 (Spec.validLexOpt new.dt new.lex)}|{backS}|{b01 (n2.lex == n1.lex)}|{canon n1.value}|{refEq}|{eqS (new.eq o)}"
+          if st.spell then s!"{base}|{showCps new.lex}|{showCps n1.lex}" else base
+        | none => "relit|raise"
+      | none => "relit|raise"
+
 def step (st : St) : List String → St × String
   | ["skip"] => (st, "unmodelled")
   | ["spell", b] => if b = "1" then (⟨true⟩, "ok") else if b = "0" then (⟨false⟩, "ok") else (st, "bad-op")
@@ -196,6 +220,10 @@ def step (st : St) : List String → St × String
     match pySpec? r with
     | some (v, []) => (st, pyLine st v)
     | _ => (st, "bad-op")
+  | "relit" :: d :: r =>
+    match optDt? d, litSpec? r with
+    | some d, some (o, []) => (st, relitLine st o d)
+    | _, _ => (st, "bad-op")
   | "eq" :: r =>
     match litSpec? r with
     | some (a, r') =>
